@@ -235,7 +235,7 @@ func VH_C15b() {
 	budget := left
 	cfs, cmeta := crashFs{fs, &budget}, crashFs{metaFs, &budget}
 	op := vsym.Choice("op", 3)
-	newBody := vsym.Bytes("body", 2)
+	newBody := vsym.Bytes("body", 2+vsym.Choice("samesize", 2)) // 3 bytes: the same size as the object being overwritten
 	crashed := false
 	func() {
 		defer func() {
@@ -250,9 +250,9 @@ func VH_C15b() {
 		b1 := openFs(kind, cfs, cmeta) // the server may also die while starting up
 		switch op {
 		case 0: // overwrite x
-			b1.PutObject(bucket, "x", map[string]string{"X-Amz-Meta-A": "n", "Content-Type": "t/new"}, bytes.NewReader(newBody), 2)
+			b1.PutObject(bucket, "x", map[string]string{"X-Amz-Meta-A": "n", "Content-Type": "t/new"}, bytes.NewReader(newBody), int64(len(newBody)))
 		case 1: // new nested key
-			b1.PutObject(bucket, "d/y", map[string]string{"X-Amz-Meta-A": "n"}, bytes.NewReader(newBody), 2)
+			b1.PutObject(bucket, "d/y", map[string]string{"X-Amz-Meta-A": "n"}, bytes.NewReader(newBody), int64(len(newBody)))
 		default: // delete x
 			b1.DeleteObject(bucket, "x")
 		}
@@ -285,7 +285,7 @@ func VH_C15b() {
 		o.Contents.Close()
 		body := readObj(b2, bucket, key).body
 		isOld := body == "old" && string(o.Hash) == string(oldSum[:]) && o.Size == 3
-		isNew := body == string(newBody) && string(o.Hash) == string(newSum[:]) && o.Size == 2
+		isNew := body == string(newBody) && string(o.Hash) == string(newSum[:]) && int(o.Size) == len(newBody)
 		vsym.Assert((allowOld && isOld) || (allowNew && isNew), tag+"/torn-object-after-restart")
 		listed := false
 		for _, k := range ks {
